@@ -861,9 +861,13 @@ func runWrap(c WrapCase, ctx *hx.Ctx) *hx.Failure {
 		}
 		name := fmt.Sprintf("s%d.c01.test.", i)
 		id := uint16(i * 7)
-		r, err := rx.ExchangeReserved(cx, peer.Query(id, name, 16))
+		// the scripted peer answers each of these queries from inside the Write call: 15 s are only ever used up
+		// when that reply is lost
+		ex, exCancel := context.WithTimeout(cx, 15*time.Second)
+		r, err := rx.ExchangeReserved(ex, peer.Query(id, name, 16))
+		exCancel()
 		if err != nil {
-			return hx.Failf("C01/short-exchange-failed", "exchange %d: %v", i, err)
+			return hx.Failf("C01/short-exchange-failed", "exchange %d on one connection (reply fed during the write): %v", i, err)
 		}
 		if why := w.Book.Judge(*r, id, name); why != "" {
 			return hx.Failf("C01/wrong-reply", "wrap-around run, exchange %d: %s", i, why)
